@@ -83,6 +83,7 @@ fn suite_board(cx: &mut Ctx, tier: &str, shard: usize, nshards: usize, variant: 
     family_ep_defects(&mut fam);
     family_ep_lines(&mut fam);
     family_minor_stalemates(&mut fam);
+    family_only_promotions(&mut fam);
     let n_defects = fam.len() - before_defects;
     family_crowded(&mut frng, tier_n(tier, 240, 4000), &mut fam);
     family_collinear(&mut fam);
@@ -253,13 +254,15 @@ fn game_fields(g: &Game, fin: bool, std_start: bool) -> String {
     f.join("|")
 }
 
-struct GameCx<'a> { w: &'a mut dyn Write, rng: Rng, prefix: String, n: usize }
+struct GameCx<'a> { w: &'a mut dyn Write, rng: Rng, prefix: String, n: usize, std_roots: usize }
 impl<'a> GameCx<'a> {
     fn node(&mut self) -> String { self.n += 1; format!("{}{}", self.prefix, self.n) }
     fn root(&mut self, d: &Desc) -> Option<(String, Game, bool)> {
         let id = self.node();
         let std_start = d.to_fen() == "rnbqkbnr/pppppppp/8/8/8/8/PPPPPPPP/RNBQKBNR w KQkq - 0 1";
-        let g = if std_start && self.rng.chance(1, 2) { Some(Game::default()) } else {
+        // the standard start is entered through Game::default() and through from_board alternately (the first time through default())
+        let use_default = std_start && { self.std_roots += 1; self.std_roots % 2 == 1 };
+        let g = if use_default { Some(Game::default()) } else {
             match d.build_setup() { Ok(Ok(b)) => quiet(|| Game::from_board(b)).ok(), _ => None }
         };
         match g {
@@ -342,6 +345,11 @@ const GAME_ROOTS: &[&str] = &[
 /// scripted openings from the standard start that create unusual material early (three knights, two or three queens
 /// per side), so that random continuations meet the rarer short-notation forms
 const PREFIXES: &[&str] = &[
+    // a pawn capture and a bishop capture whose texts differ only in the case of the first letter (bxc3 / Bxc3, bxc6 / Bxc6)
+    "d2d3 Ng8f6 Bc1d2 Nf6e4 a2a3 Ne4c3 b2c3 e7e5",
+    "d2d3 Ng8f6 Bc1d2 Nf6e4 a2a3 Ne4c3 Bd2c3 e7e5",
+    "Ng1f3 d7d6 Nf3e5 Bc8d7 Ne5c6 b7c6 e2e4",
+    "Ng1f3 d7d6 Nf3e5 Bc8d7 Ne5c6 Bd7c6 e2e4",
     "f2f4 e7e5 f4e5 f7f5 e5f6 Ke8f7 f6g7 Bf8g7 Ng1h3 a7a6 e2e4 a6a5 Bf1e2 a5a4 O-O Kf7e8 d2d4",
     "d2d4 d7d5 Nb1c3 e7e5 Bc1f4 e5f4 Qd1d3 Ke8d7 d4d5 Kd7d6 Qd3e3 f4e3 O-O-O",
     "h2h4 g7g5 h4g5 a7a6 g5g6 b7b6 g6h7 Bc8b7 h7g8=N Nb8c6 Nb1c3 d7d6 Nc3e4 Qd8d7 Ng1f3 O-O-O Nf3e5 Kc8b8 Ne5g4 a6a5",
@@ -452,7 +460,7 @@ fn dance_game(cx: &mut GameCx, d: &Desc, cycles: usize, p_proto: u64, prelude_ma
 }
 
 fn suite_game(w: &mut dyn Write, tier: &str, seed: u64, shard: usize, nshards: usize, variant: &str) {
-    let mut cx = GameCx { w, rng: Rng::new(seed * 1000 + shard as u64), prefix: format!("g{}_", shard), n: 0 };
+    let mut cx = GameCx { w, rng: Rng::new(seed * 1000 + shard as u64), prefix: format!("g{}_", shard), n: 0, std_roots: 0 };
     let roots: Vec<Desc> = GAME_ROOTS.iter().map(|f| Desc::from_fen(f)).collect();
     if variant != "pgn" {
         let depth = tier_n(tier, 3, 4);
@@ -500,6 +508,8 @@ fn suite_game(w: &mut dyn Write, tier: &str, seed: u64, shard: usize, nshards: u
             ("r3k3/R7/8/8/8/8/8/4K3 b - - 0 1", "Ra8a7 Ke1d1 Ra7a8 Kd1e1 Ra8a7 Ke1d1"),
             ("4k3/8/8/8/8/2n5/8/1N2K3 w - - 0 1", "Nb1c3 Ke8d8 Nc3b1 Kd8e8 Nb1c3 Ke8d8"),
         ];
+        // the start position itself as the repeated position, entered through Game::default() and through from_board
+        if shard < 2 { for _ in 0..2 { dance_game(&mut cx, &roots[0], 3, 0, 0); } }
         for (i, (fen, script)) in CAPTURE_LOOPS.iter().enumerate() {
             if i % nshards != shard { continue }
             random_game_from(&mut cx, &Desc::from_fen(fen), 1, 0, Some(script));
@@ -515,11 +525,62 @@ fn suite_game(w: &mut dyn Write, tier: &str, seed: u64, shard: usize, nshards: u
         // C15: games from the standard start in every ending mode
         let n = tier_n(tier, 300, 12000) / nshards + 1;
         let start = roots[0].clone();
+        // castling tokens at the line-wrap limit: castling lines behind a varying number of rook-pawn moves; kept are the games
+        // in whose unwrapped move list (independent of the wrapping code) a castling token does not fit on its line while
+        // its part up to a hyphen would (a splitter that breaks at hyphens would cut it there)
+        if shard == 0 {
+            const CASTLE_LINES: [&str; 4] = [
+                "e2e4 e7e5 Ng1f3 Nb8c6 Bf1c4 Bf8c5 O-O Ng8f6 d2d3 O-O Nb1c3 d7d6",
+                "d2d4 d7d5 Nb1c3 Nb8c6 Bc1f4 Bc8f5 Qd1d2 Qd8d7 O-O-O O-O-O e2e3 e7e6",
+                "e2e4 e7e5 Ng1f3 Nb8c6 Bf1c4 Bf8c5 d2d3 d7d6 Bc1e3 Bc8e6 Qd1d2 Qd8d7 Nb1c3 Ng8f6 O-O-O O-O",
+                "d2d4 d7d5 Nb1c3 Nb8c6 Bc1f4 Bc8f5 Qd1d2 e7e6 O-O-O Ng8f6 e2e3 Bf8e7 Ng1f3 O-O",
+            ];
+            const W_PAD: [&str; 11] = ["a2a3", "a3a4", "b2b3", "b3b4", "h2h3", "h3h4", "g2g3", "Ng1h3", "Nh3g1", "Nb1a3", "Na3b1"];
+            const B_PAD: [&str; 11] = ["a7a6", "a6a5", "b7b6", "b6b5", "h7h6", "h6h5", "g7g6", "Ng8h6", "Nh6g8", "Nb8a6", "Na6b8"];
+            let straddles = |hist: &str| -> bool {
+                let mut line = 0usize; let mut hit = false;
+                for tok in hist.split(' ').filter(|t| !t.is_empty()) {
+                    let need = if line == 0 { tok.len() } else { line + 1 + tok.len() };
+                    if need <= 85 { line = need; continue }
+                    if tok.contains("O-O") {
+                        for (h, c) in tok.char_indices() { if c == '-' && line + 1 + h + 1 <= 85 { hit = true } }
+                    }
+                    line = tok.len();
+                }
+                hit
+            };
+            let mut kept = 0;
+            let mut prng = Rng::new(seed * 77 + 5);
+            for attempt in 0..tier_n(tier, 800, 8000) {
+                if kept >= tier_n(tier, 8, 60) { break }
+                let cl = CASTLE_LINES[attempt % 4];
+                let mut g = Game::default();
+                let mut script: Vec<String> = vec![];
+                let mut ok = true;
+                for ply in 0..2 * prng.below(14) {
+                    let pool = if ply % 2 == 0 { &W_PAD } else { &B_PAD };
+                    let legal: Vec<&str> = pool.iter().copied().filter(|t| BoardMove::from_str(t).map(|m| g.get_position().is_legal_move(&m)).unwrap_or(false)).collect();
+                    if legal.is_empty() { ok = false; break }
+                    let t = legal[prng.below(legal.len())];
+                    if g.make_move(&Action::MakeMove(BoardMove::from_str(t).unwrap())).is_err() { ok = false; break }
+                    script.push(t.to_string());
+                }
+                if !ok || !matches!(g.get_game_status(), GameStatus::Ongoing) { continue }
+                for t in cl.split(' ') {
+                    match BoardMove::from_str(t) { Ok(m) => { if g.make_move(&Action::MakeMove(m)).is_err() { ok = false; break } } Err(_) => { ok = false; break } }
+                    script.push(t.to_string());
+                }
+                if ok && straddles(&format!("{}", g.get_action_history())) {
+                    kept += 1;
+                    random_game_from(&mut cx, &start, 1, 0, Some(&script.join(" ")));
+                }
+            }
+        }
         for i in 0..n {
             let len = if i % 10 == 0 { cx.rng.below(4) } else { 2 + cx.rng.below(160) };
             // repetition games; every other one with draw offers made and declined on the way (they must not count as occurrences)
-            if i % 8 == 3 { let cycles = 2 + cx.rng.below(2); dance_game(&mut cx, &start, cycles, if (i / 8) % 2 == 0 { 0 } else { 20 }, 6); continue }
-            if i % 4 == 1 { let pf = PREFIXES[cx.rng.below(PREFIXES.len())]; let l = 10 + cx.rng.below(60); random_game_from(&mut cx, &start, l, 2, Some(pf)); continue }
+            if i % 8 == 3 { let cycles = 2 + cx.rng.below(2); dance_game(&mut cx, &start, cycles, [0, 30, 100][(i / 8 + shard) % 3], 6); continue }
+            if i % 4 == 1 { let pf = PREFIXES[(i / 4 + shard) % PREFIXES.len()]; let l = 10 + cx.rng.below(60); random_game_from(&mut cx, &start, l, 2, Some(pf)); continue }
             random_game(&mut cx, &start, len, if i % 3 == 0 { 0 } else { 4 });
         }
     }
